@@ -14,7 +14,7 @@ ASSUMPTIONS = [
     "can be scheduled now (or on an explicit wait action when waits are enabled)",
     "file instances: FJSP/JSSP text files written by the harness and read through the env's file generators",
 ]
-REQUIRED_COUNTERS = ["episodes", "c07_schedules_checked", "c07_simulations"]
+REQUIRED_COUNTERS = ["c07_ffsp_multistart_rows", "episodes", "c07_schedules_checked", "c07_simulations"]
 MIN_NONTRIVIAL = {"quick": 3000, "thorough": 30000}
 WORKERS = {"quick": 12, "thorough": 16}
 BUDGET_S = {"quick": 400, "thorough": 3000}
@@ -30,12 +30,20 @@ def cases(tier, seed):
     for cfg in envzoo.sched_configs(tier):
         for r in range(reps):
             out.append(dict(kind="other", cfg=cfg, family="gen", B=16, s=rnd.randrange(10**6)))
+        if cfg["env"] == "smtwtp":
+            for r in range(reps):
+                out.append(dict(kind="other", cfg=cfg, family="boundary", B=16, s=rnd.randrange(10**6)))
+        if cfg["env"] == "ffsp" and cfg.get("tmax", 6) <= 6:
+            for r in range(max(2, reps // 3)):
+                out.append(dict(kind="ffsp_pomo", cfg=cfg, B=rnd.choice([1, 3, 4]), starts=rnd.choice([2, 6]), s=rnd.randrange(10**6)))
     return out
 
 
 def run_case(ctx, case):
     from vlib import sweep
 
+    if case["kind"] == "ffsp_pomo":
+        return sweep.ffsp_pomo_case(ctx, case, {"C07"})
     sweep.other_case(ctx, case, {"C07"})
 
 
